@@ -283,7 +283,20 @@ def e2e_cases(ctx):
         for p in (patterns if ctx.thorough() else patterns[:6]):
             for (to, so) in (SETTINGS if ctx.thorough() else SETTINGS[1:3]):
                 cases.append((u, p, to, so))
+    # other entry points (the timeout and socket options must reach EVERY socket whichever way they were configured) and
+    # the route through an HTTP proxy (TLS exactly for wss there too)
+    for u in E2E_URLS[:9]:
+        for p in patterns[:4]:
+            for (to, so) in SETTINGS[1:4]:
+                for via in ("create_connection", "default-timeout", "settimeout-then-connect"):
+                    cases.append((u, p, to, so, None, via))
+            cases.append((u, p, 5, [], "proxy", "connect"))
+            cases.append((u, p, 3, SETTINGS[3][1], "proxy", "create_connection"))
     return cases
+
+
+PROXY_HOST, PROXY_PORT = "proxy.example", 3128
+PROXY_REPLY = b"HTTP/1.1 200 Connection established\r\n\r\n"
 
 
 def run_e2e(ctx, cases=None):
@@ -292,30 +305,51 @@ def run_e2e(ctx, cases=None):
     cases = cases if cases is not None else e2e_cases(ctx)
     lines, lspec, ldial = [], [], []
     real = []
-    for url, addrs, to, so in cases:
-        net = N.Net(addrs=addrs)
+    cases = [tuple(c) + (None, "connect")[len(c) - 4:] for c in cases]
+    for url, addrs, to, so, route, via in cases:
+        net = N.Net(addrs=addrs, proxy_reply=PROXY_REPLY)
         HS.CookieJar.jar.clear()
+        kw = {"http_proxy_host": PROXY_HOST, "http_proxy_port": PROXY_PORT} if route == "proxy" else {}
+        old_default = websocket.getdefaulttimeout()
+        ws = None
         try:
             with N.patched(net, {}):
-                ws = websocket.WebSocket(sockopt=list(so))
-                ws.connect(url, timeout=to)
+                if via == "connect":
+                    ws = websocket.WebSocket(sockopt=list(so))
+                    ws.connect(url, timeout=to, **kw)
+                elif via == "create_connection":
+                    ws = websocket.create_connection(url, timeout=to, sockopt=list(so), **kw)
+                elif via == "default-timeout":
+                    websocket.setdefaulttimeout(to)
+                    ws = websocket.create_connection(url, sockopt=list(so), **kw)
+                else:
+                    ws = websocket.WebSocket(sockopt=list(so))
+                    ws.settimeout(to)
+                    ws.connect(url, **kw)
             res = "connected" if ws.connected else "not-connected"
         except Exception as e:  # noqa
             res = common.canon_exc(e)
+        finally:
+            websocket.setdefaulttimeout(old_default)
         real.append((res, net))
-        lines.append(f"m-connect {hx(url)} {N.enc_timeout(to)} {opts_arg(so)} - 0 ! - - {N.outcomes_arg(addrs)} -")
+        if route == "proxy":
+            lines.append(f"m-connect {hx(url)} {N.enc_timeout(to)} {opts_arg(so)} {hx(PROXY_HOST)} {PROXY_PORT} ! - - "
+                         f"{N.outcomes_arg(addrs)} {hx(PROXY_REPLY)}")
+        else:
+            lines.append(f"m-connect {hx(url)} {N.enc_timeout(to)} {opts_arg(so)} - 0 ! - - {N.outcomes_arg(addrs)} -")
         lspec.append("s-parse-url " + hx(url))
         ldial.append(f"s-dial {N.enc_timeout(to)} {opts_arg(so)} {N.outcomes_arg(addrs) if addrs else '-'}")
     out = common.run_driver_parallel(lines + lspec + ldial)
     n = len(cases)
     mo, so_, do = out[:n], out[n:2 * n], out[2 * n:]
-    for (url, addrs, to, so), (res, net), m, s, d in zip(cases, real, mo, so_, do):
-        inp = {"op": "connect", "url": url, "addrs": addrs, "timeout": to, "sockopt": [list(map(int, o)) for o in so]}
+    for (url, addrs, to, so, route, via), (res, net), m, s, d in zip(cases, real, mo, so_, do):
+        inp = {"op": "connect", "url": url, "addrs": addrs, "timeout": to, "sockopt": [list(map(int, o)) for o in so],
+               "route": route, "via": via}
         log = net.log
-        pre = [e for e in log if not (e[0] == "send")]
+        pre = [e for e in log if not (e[0] == "send")] if route != "proxy" else list(log)
         evs = N.render_events(pre)
         kind = s.split(" ")[0]
-        ctx.case(key=("e2e", url, str(addrs), to, len(so)), nontrivial=(kind == "target" and bool(addrs) and len(addrs) > 1),
+        ctx.case(key=("e2e", url, str(addrs), to, len(so), route, via), nontrivial=(kind == "target" and bool(addrs) and len(addrs) > 1),
                  cls=f"e2e:{kind}:{res.split('(')[0]}",
                  sample=dict(inp, result=res, trace=N.render_events(log)[:400]) if kind == "target" and addrs == ["r", "a"]
                  and "wss" in url and len(ctx.samples) < 9 else None)
@@ -345,8 +379,9 @@ def run_e2e(ctx, cases=None):
         th, tp, tr, ts = s.split(" ")[1:]
         host, port, resource, secure = bytes.fromhex(th).decode(), int(tp), bytes.fromhex(tr).decode(), ts == "1"
         resolves = [e for e in log if e[0] == "resolve"]
-        if not resolves or (resolves[0][1], resolves[0][2]) != (host, port):
-            ctx.violate("url-determines-target", "resolver-arguments-wrong", inp, f"getaddrinfo({host!r}, {port})", str(resolves[:1]), size=len(url))
+        dial_target = (host, port) if route != "proxy" else (PROXY_HOST, PROXY_PORT)
+        if not resolves or (resolves[0][1], resolves[0][2]) != dial_target:
+            ctx.violate("url-determines-target", "resolver-arguments-wrong", inp, f"getaddrinfo{dial_target}", str(resolves[:1]), size=len(url))
             continue
         if addrs:
             sr, se = d.split(" ", 1)
@@ -360,6 +395,11 @@ def run_e2e(ctx, cases=None):
                 tls = [e for e in log if e[0] == "tls"]
                 if secure != bool(tls) or (tls and tls[0][2] != host):
                     ctx.violate("url-determines-target", "tls-not-exactly-for-wss", inp, f"TLS({host})" if secure else "no TLS", str(tls), size=len(url))
+                if route == "proxy":
+                    conn = [e for e in log if e[0] == "send"][:1]
+                    want_c = f"CONNECT {'[' + host + ']' if ':' in host else host}:{port} HTTP/1.1".encode()
+                    if not conn or not bytes(conn[0][2]).startswith(want_c[:8]):
+                        ctx.violate("url-determines-target", "connect-line-wrong", inp, want_c.decode(), str(conn)[:120], size=len(url))
                 reqline = net.requests[0].split(b"\r\n")[0].decode("latin1") if net.requests else "<no request>"
                 if reqline != f"GET {resource} HTTP/1.1":
                     ctx.violate("url-determines-target", "path-params-dropped" if ";" in resource else "request-line-wrong", inp,
